@@ -81,5 +81,9 @@ int snoopy_datasource_cwd (char * const resultBuf, size_t resultBufSize, __attri
     }
 
     free(cwdBuf);
+    if (SNOOPY_DATASOURCE_FAILURE == retVal) {
+        // Working directory removed or not reachable: say so (and leave a terminated result behind)
+        snprintf(resultBuf, resultBufSize, "getcwd() failed");
+    }
     return retVal;
 }
